@@ -24,15 +24,18 @@ def run(ctx):
     dsl.verify(ctx, repo, r, "C01.smc.sample", G.SAMPLE, G.h_sample_schedule,
                expect_covers=["conditional", "unconditional", "after-loop", "sample.loop.body", "sample.loop.exit"])
     ctx.trust(*r.assumed)
+    # L2: one arbitrary step of the retained path
+    dsl.verify(ctx, repo, G.base_registry(), "C01.csmc.constrained_path", G.CSMC + "._get_constrained_path", G.h_constrained_path, expect_covers=G.PATH_COVERS)
     # L4: proposals faithful (imported from C08)
     dsl.verify(ctx, repo, B.registry(), "C01.L4.boot", [B.SAMPLE, B.LOGP], B.harness, expect_covers=B.COVERS, concretise=B.concretise)
     common.adapted_contracts(ctx, repo, "C01.L4")
     ctx.trust(*B.registry().assumed)
     ctx.trust("M-PG (Andrieu, Doucet, Holenstein 2010, Thm 5 with an auxiliary permutation variable): the local conditions L1-L8 imply invariance "
               "of the conditional SMC update; a theorem about Markov kernels, trusted, cross-checked by the exact-kernel oracle (bounded)",
-              "L2 (the retained path rebuilt by _get_constrained_path is the input tree along the drawn order) is covered by the bounded oracle only")
+              "L2: every step of _get_constrained_path is under contract (placement as in the conditioned tree, proposal / density / particle of the previous state); that the "
+              "tree after the last step is the conditioned tree up to clone names (the function's own rustworkx isomorphism assert) is modelled as true and exercised by the bounded oracle")
     ctx.assume("A-REAL: floats as reals", "the density of the permutation distribution is C09's obligation; proposals' candidate sets are C08's")
-    ctx.extra["explanation"] = ("Deductive: local conditions L1, L3-L8 of particle Gibbs as obligations on the real source for all N, T, thresholds, parent states. "
+    ctx.extra["explanation"] = ("Deductive: local conditions L1-L8 of particle Gibbs as obligations on the real source for all N, T, thresholds, parent states. "
                                 "Bounded stand-in: exact transition matrix of the real ParticleGibbsTreeSampler.sample_tree over all trees on n<=3 points, N=2.")
 
     if ctx.tier == "thorough":
